@@ -17,9 +17,11 @@ import (
 )
 
 var (
-	replayFile = flag.String("replay", "", "replay a journaled case instead of generating")
-	maxSteps   = flag.Int("steps", 14, "maximum number of steps per generated history")
-	tier       = flag.String("tier", "quick", "quick|thorough")
+	replayFile      = flag.String("replay", "", "replay a journaled case instead of generating")
+	maxSteps        = flag.Int("steps", 14, "maximum number of steps per generated history")
+	tier            = flag.String("tier", "quick", "quick|thorough")
+	maxCuts         = flag.Int("cuts", 150, "C06/C16: maximum number of cut points per history")
+	exhaustiveBelow = flag.Int("exhaustive", 0, "C06: tapes up to this many bytes are cut at every byte")
 )
 
 func TestMain(m *testing.M) {
@@ -170,7 +172,7 @@ func runCase(f failer, prop string, cfg world.Cfg, params hist.Params, orc oracl
 		orc.Before(x, s)
 		res := r.Do(s)
 		if res.Hang != nil {
-			if res.Hang.Verdict == live.Timeout {
+			if res.Hang.Verdict == live.Timeout && !busyIsViolation {
 				inconclusive(f, res.Hang.Detail)
 			}
 			failf(f, "step %d %s: %s", i, s, res.Hang.Detail)
@@ -182,6 +184,10 @@ func runCase(f failer, prop string, cfg world.Cfg, params hist.Params, orc oracl
 			break
 		}
 		x.classify(s, res, mres)
+		if os.Getenv("VERIF_DUMP") != "" {
+			rows, _ := observe.IndexDump(x.r.W.DB)
+			fmt.Fprintf(os.Stderr, "--- after step %d %s err=%v\n%s", i, s, res.Err, observe.DumpString(rows))
+		}
 		if msg := orc.After(x, s, res, mres); msg != "" {
 			failf(f, "after step %d %s (err=%v):\n%s", i, s, res.Err, msg)
 		}
@@ -213,12 +219,17 @@ func inconclusive(f failer, msg string) {
 }
 
 // hangMsg turns a watchdog error from an observer into a failure or exit.
+// busyIsViolation: for the properties whose statement is termination (C06, C10, C16) a
+// call that is still *running* (not blocked) after live.Budget (thousands of times its
+// normal duration) counts as not terminating; everywhere else it is inconclusive.
+var busyIsViolation bool
+
 func checkObs(f failer, err error, what string) {
 	if err == nil {
 		return
 	}
 	if he, ok := err.(*observe.HangError); ok {
-		if he.Verdict == live.Timeout {
+		if he.Verdict == live.Timeout && !busyIsViolation {
 			inconclusive(f, he.Detail)
 		}
 		failf(f, "%s: %s", what, he.Detail)
@@ -277,7 +288,11 @@ func TestReplay(t *testing.T) {
 	if !ok {
 		t.Fatalf("no replay for property %q", c.Property)
 	}
-	replayHistory(t, c, mk(), world.Opts{})
+	opts := world.Opts{}
+	if c.Property == "C06" || c.Property == "C16" {
+		opts.Probe = sharedProbe
+	}
+	replayHistory(t, c, mk(), opts)
 }
 
 var customReplays = map[string]func(t *testing.T, c *hist.Case, path string){}
